@@ -185,10 +185,24 @@ func (bc *Blockchain) ApplyStake(txn adb.Txn, stakeData *transaction.Stake, sign
 		break
 	}
 	if !staked {
+		unlock := stats.TopHeight + config.STAKE_UNLOCK_TIME
+		if reverse {
+			// we are undoing an unstake that emptied (and therefore dropped) the fund: bring the fund back with
+			// the unlock height it had, which ApplyUnstake saved under the transaction id
+			old, err := bc.GetDelegateHistory(txn, util.Hash(txid))
+			if err == nil && old.Id == delegate.Id {
+				for _, fund := range old.Funds {
+					if fund.Owner == signerAddr {
+						unlock = fund.Unlock
+						break
+					}
+				}
+			}
+		}
 		delegate.Funds = append(delegate.Funds, &chaintype.DelegatedFund{
 			Owner:  signerAddr,
 			Amount: stakeData.Amount,
-			Unlock: stats.TopHeight + config.STAKE_UNLOCK_TIME,
+			Unlock: unlock,
 		})
 	}
 
@@ -230,6 +244,14 @@ func (bc *Blockchain) ApplyUnstake(txn adb.Txn, unstakeData *transaction.Unstake
 		if fund.Amount < unstakeData.Amount {
 			return fmt.Errorf("transaction %s trying to unstake %s, more than available balance %s",
 				txid, util.FormatCoin(unstakeData.Amount), util.FormatCoin(fund.Amount))
+		}
+		if !reverse && fund.Amount == unstakeData.Amount {
+			// this unstake empties the fund, which is then dropped together with its unlock height: keep the
+			// delegate as it is now, so that undoing this transaction in a reorganisation can restore the fund
+			err = bc.SetDelegateHistory(txn, util.Hash(txid), delegate)
+			if err != nil {
+				return fmt.Errorf("failed to set delegate history: %w", err)
+			}
 		}
 		fund.Amount -= unstakeData.Amount
 		// change unlock only if we are reversing a stake transaction, as unstake transactions do not change unlock
